@@ -49,6 +49,21 @@ pub mod big_digit {
         (n & LO_MASK) as BigDigit
     }
 //@ end
+//@ extract src/lib.rs :: mod big_digit :: fn to_doublebigdigit props=C02,C03
+    pub(crate) fn to_doublebigdigit(hi: BigDigit, lo: BigDigit) -> /*+*/(r: /*-*/DoubleBigDigit/*+*/)/*-*/
+//+{
+        ensures r as nat == (hi as nat) * B() + (lo as nat)
+//+}
+    {
+//+{
+        proof {
+            let l = lo as u128; let h = hi as u128;
+            assert(l <= 0xffff_ffff_ffff_ffffu128 && h <= 0xffff_ffff_ffff_ffffu128 ==> (l | (h << 64u8)) == l + h * 0x1_0000_0000_0000_0000u128) by (bit_vector);
+        }
+//+}
+        DoubleBigDigit::from(lo) | (DoubleBigDigit::from(hi) << BITS)
+    }
+//@ end
 //@ extract src/lib.rs :: mod big_digit :: fn from_doublebigdigit props=C02
     pub(crate) fn from_doublebigdigit(n: DoubleBigDigit) -> /*+*/(r: /*-*/(BigDigit, BigDigit)/*+*/)/*-*/
 //+{
